@@ -163,11 +163,13 @@ class SimLoop(asyncio.BaseEventLoop):
             self._ready.append(events.Handle(fn, args, self))
 
         # due timers; groups with *exactly* equal deadlines may be permuted (N5)
-        end_time = self.time() + self._clock_resolution
+        # due = deadline, rounded to the integer-microsecond clock, not after now.  (Comparing floats as asyncio does
+        # leaves a timer set for "now + 1 ulp" - a sub-nanosecond delay at simulated times of weeks - neither due nor
+        # in the future of the microsecond clock: the loop would spin without advancing.)
         due: list[Any] = []
         while self._scheduled:
             handle = self._scheduled[0]
-            if handle._when >= end_time:
+            if _when_to_us(handle._when) > self._now_us:
                 break
             handle = heapq.heappop(self._scheduled)
             handle._scheduled = False
